@@ -880,7 +880,8 @@ def run_gate_bounds(task):
 def run_gate_expression(task):
     """constraints._integer_bounds_errors_for_expression on one operator node
     with symbolic ranges on the result and its two integer arguments."""
-    _, nargs = task
+    _, nargs = task[0], task[1]
+    boolean_result = len(task) > 2 and task[2] == "cmp"
     res = TaskResult(task)
     holder = {}
 
@@ -899,10 +900,18 @@ def run_gate_expression(task):
         args = [ir_data.Expression(
             builtin_reference=ir_data.Reference(canonical_name=ir_data.CanonicalName(object_path=["$logical_value"])),
             type=ir_data.ExpressionType(integer=it)) for it in nodes[1:]]
-        e = ir_data.Expression(
-            function=ir_data.Function(function=FM.ADDITION, args=args,
-                                      function_name=ir_data.Word(text="+")),
-            type=ir_data.ExpressionType(integer=nodes[0]))
+        if boolean_result:
+            # a comparison: the result is a boolean, only the operands have integer ranges
+            rng = rng[1:]
+            holder["rng"] = rng
+            e = ir_data.Expression(
+                function=ir_data.Function(function=FM.LESS, args=args, function_name=ir_data.Word(text="<")),
+                type=ir_data.ExpressionType(boolean=ir_data.BooleanType()))
+        else:
+            e = ir_data.Expression(
+                function=ir_data.Function(function=FM.ADDITION, args=args,
+                                          function_name=ir_data.Word(text="+")),
+                type=ir_data.ExpressionType(integer=nodes[0]))
         return constraints._integer_bounds_errors_for_expression(e, "f.emb")
 
     def on_path(pr):
@@ -910,8 +919,8 @@ def run_gate_expression(task):
         rng = holder["rng"]
 
         def describe(model):
-            return {"op": "gate:expression",
-                    "ranges": [[pysym.model_int(model, lo), pysym.model_int(model, hi)] for lo, hi in rng]}
+            return {"op": "gate:expression", "boolean_result": boolean_result,
+                    "ranges": [[pysym.model_int(model, lo), pysym.model_int(model, hi)] for lo, hi in holder["rng"]]}
 
         ob = Obl(res, c, describe)
         if pr.kind == "raise":
@@ -1119,11 +1128,15 @@ def replay(cand):
         if op == "gate:expression":
             rs = cand["ranges"]
             its = [ir_data.IntegerType(modulus="1", modular_value="0", minimum_value=str(lo), maximum_value=str(hi)) for lo, hi in rs]
-            args = [ir_data.Expression(
+            mk = lambda it: ir_data.Expression(
                 builtin_reference=ir_data.Reference(canonical_name=ir_data.CanonicalName(object_path=["$logical_value"])),
-                type=ir_data.ExpressionType(integer=it)) for it in its[1:]]
-            e = ir_data.Expression(function=ir_data.Function(function=FM.ADDITION, args=args, function_name=ir_data.Word(text="+")),
-                                   type=ir_data.ExpressionType(integer=its[0]))
+                type=ir_data.ExpressionType(integer=it))
+            if cand.get("boolean_result"):
+                e = ir_data.Expression(function=ir_data.Function(function=FM.LESS, args=[mk(it) for it in its], function_name=ir_data.Word(text="<")),
+                                       type=ir_data.ExpressionType(boolean=ir_data.BooleanType()))
+            else:
+                e = ir_data.Expression(function=ir_data.Function(function=FM.ADDITION, args=[mk(it) for it in its[1:]], function_name=ir_data.Word(text="+")),
+                                       type=ir_data.ExpressionType(integer=its[0]))
             errs = constraints._integer_bounds_errors_for_expression(e, "f.emb")
             s64 = all(lo >= -(2**63) and hi <= 2**63 - 1 for lo, hi in rs)
             u64 = all(lo >= 0 and hi <= 2**64 - 1 for lo, hi in rs)
@@ -1268,6 +1281,7 @@ def build_tasks(tier):
     tasks.append(("gate_bounds",))
     tasks.append(("gate_expr", 1))
     tasks.append(("gate_expr", 2))
+    tasks.append(("gate_expr", 2, "cmp"))
     tasks.append(("cpp_type",))
     # tasks whose modulus becomes symbolic (two constants) are the slow ones
     def weight(t):
